@@ -151,6 +151,26 @@ func c18Programs() []Program {
 			Prfs: [][]string{{"link", "dup"}, {"dlg", "dup"}, {"link", "dlg", "dup", "dup"}}[i%3]}
 		ps = append(ps, Program{Kind: "receipt", Rcpt: &s})
 	}
+	// options given twice: the later one holds
+	for i := 0; i < 8; i++ {
+		var s USpec
+		s.Key = []string{"ed0", "rsa0", "wrap3", "ed2"}[i%4]
+		s.Aud = fmt.Sprintf("ed%d", 12+i%6)
+		s.Fields.Att = []UCap{{Can: "store/add", With: "did:key:z6MkExample", Nb: tvMap(nil)}}
+		s.PreOpts = [][]string{{"exp:1999999999"}, {"noexp"}, {"exp:1999999999", "noexp", "nbf:5", "nnc:first"}, {"noexp", "exp:1888888888"}}[i%4]
+		if i%2 == 1 {
+			e := c18Now + 9000 + i
+			s.Fields.Exp = &e
+		}
+		if i >= 4 {
+			nn := "second"
+			s.Fields.Nnc = &nn
+			nb := 1700000123
+			s.Fields.Nbf = &nb
+		}
+		s.Alter = "none"
+		ps = append(ps, Program{Kind: "token", Token: &s})
+	}
 	return ps
 }
 
@@ -172,7 +192,7 @@ func runProgram(p Program) (Artifacts, error) {
 		for _, c := range s.Fields.Att {
 			caps = append(caps, ucan.NewCapability(c.Can, c.With, tvBuilder{c.Nb}))
 		}
-		var opts []delegation.Option
+		opts := preOpts(s.PreOpts)
 		if s.Fields.Exp == nil {
 			opts = append(opts, delegation.WithNoExpiration())
 		} else {
@@ -435,6 +455,15 @@ func genC18(cfg Config, emit Emit) error {
 	for sc.Scan() {
 		n++
 		emit("c18", []string{sc.Text()}, "recorded", true)
+		// every recorded root block is also read and re-written by the Lean DAG-CBOR model
+		var rl recordedLine
+		if json.Unmarshal(sc.Bytes(), &rl) == nil {
+			for _, k := range []string{"root", "message-root"} {
+				if h, ok := rl.Artifacts[k]; ok && h != "" {
+					emit("cborblock", []string{h, "recorded-" + rl.Program.Kind}, "recorded-block/"+rl.Program.Kind, true)
+				}
+			}
+		}
 	}
 	if n == 0 {
 		return fmt.Errorf("recorded corpus is empty")
